@@ -633,7 +633,7 @@ class Unescape:
     is simply part of the carried program state."""
     def __init__(self, f, UE, esc):
         self.f, self.UE, self.U, self.esc = f, UE, UE.B, esc
-        (self.accb, self.accty), = UE.accs
+        self.accb = self.accty = None
         self.I = BufInterp(f, self.U, summaries=[buf_summary, unesc.feed_summary(f), unesc.char_summary],
                            inline=lambda cal: cal == unesc.FEED or cal.startswith('ldap3::util::'), combinators=True)
         self.I.stop_at = UE.loop
@@ -642,6 +642,12 @@ class Unescape:
         # positions, should the course of an iteration depend on the index: the first byte, and later ones around every integer the
         # function mentions (the partition its comparisons can induce)
         self.positions = sorted({0, 1, 2} | {k + d for k in ints if 0 <= k <= 4096 for d in (-1, 0, 1) if k + d >= 0})[:48]
+        # the output buffer: the byte-vector local (plain or optional) that exists when the loop is reached (one declared after the
+        # loop - the unwrapped result, say - is not it)
+        self.ents, self.early = self.entry_states()
+        accs = [(b, t) for b, t in UE.accs if self.ents and all(b in e_.st.env for e_ in self.ents)]
+        if len(accs) == 1:
+            (self.accb, self.accty), = accs
 
     # -------------------------------------------------------------- program state <-> environment
     def entry_states(self):
@@ -707,7 +713,7 @@ class Unescape:
 
     def explore(self):
         """(reachable product states, deviations, initial-state deviations)"""
-        ents, early = self.entry_states()
+        ents, early = self.ents, self.early
         init_wrong, wrong = [], []
         if not ents:
             return {}, [('the byte loop is not reached',)], init_wrong
@@ -848,11 +854,11 @@ def check_unescape(ctx, f):
     # the automaton state: the local of type Unescaper declared before the loop
     escb = [b for b, d in U.defs.items() if d['kind'] == 'let' and hirq.strip_refs(d['pat'].get('ty') or '') == 'ldap3::filter::Unescaper'
             and not any(x is d['node'] for blk, _c in walk(UE.loop) if blk['k'] == 'Block' for x in blk['stmts'])]
-    if len(escb) != 1 or len(UE.accs) != 1:
-        ctx.fail('anchor-missing', 'ldap_unescape state', '', 'expected one Unescaper state variable and one output accumulator'); return
+    T = Unescape(f, UE, escb[0]) if len(escb) == 1 else None
+    if T is None or T.accb is None:
+        ctx.fail('anchor-missing', 'ldap_unescape state', '', 'expected one Unescaper state variable and one output buffer (Vec<u8> / Option<Vec<u8>>) alive when the byte loop is reached'); return
     ctx.add('E5.iterates-input-bytes-in-order', 'ldap_unescape', loc(UE.loop), UE.iter_ok and not UE.two_phase,
             'the loop does not visit every byte of the input in order, from the first')
-    T = Unescape(f, UE, escb[0])
     seen, wrong, init_wrong = T.explore()
     ctx.add('E5.initial-state', 'ldap_unescape', loc(U.root), not init_wrong and bool(seen),
             'the loop must be reached with the unescaper in the Value state and nothing copied: %s' % init_wrong[:3])
